@@ -43,7 +43,7 @@ impl MetadataMap {
 
 
 def http_base(u: Unit):
-    u.prelude('base.rs', 'bytes.rs', 'http.rs', 'httpmsg.rs', 'encodings.rs')
+    u.prelude('base.rs', 'bytes.rs', 'http.rs', 'httpmsg.rs', 'encodings.rs', 'stdshim.rs')
 
 
 def metadata_core(u: Unit, props_sanitize=('C08', 'C03', 'C04', 'C12')):
